@@ -10,7 +10,7 @@ SPEC = {
     "model_prop": "fun k => implb (C09.in_domain k) (C09.model_prop k)",
     "n_quick": 220,
     "n_thorough": 6000,
-    "shard": 16,
+    "shard": 5,
     "rule": "see harness/props/c09.go: write histories for one variable-length bucket on a real temp instance (11 timeframes, 1-3 years, "
             "1-4 WriteCSM requests of 1-8 rows, many records per interval, edges, whole seconds + few ns, last ns of a second, sorted / "
             "shuffled / cross-year input, 14% wide repetitive payloads), the raw final file state and the query over all time; "
